@@ -29,6 +29,8 @@ where
         let cache_slot = &self.values[index.into()];
         if cache_slot.get().is_none() {
             let new_value = self.source.get_value(index)?;
+            #[cfg(jubako_verif)]
+            crate::verif::point("veccache_fill", index.into() as u64, 0);
             let _ = cache_slot.set(new_value);
         }
 
